@@ -5,23 +5,126 @@ BUDGET = {'quick': 840, 'thorough': 3000}
 H = 'harness/e2/c18_cut.c'
 STUBS = ['stdio: in-memory model file system with sink-fault forks (symx/models.py)', 'open/fstat/mmap over the same model files',
          'cpuid: no SIMD features (scalar dispatch)', 'snprintf: empty string']
+CODECS = {'unc': 'CARQUET_COMPRESSION_UNCOMPRESSED', 'snappy': 'CARQUET_COMPRESSION_SNAPPY', 'lz4': 'CARQUET_COMPRESSION_LZ4'}
+OPEN = {0: 'buffer', 1: 'stdio', 2: 'mmap'}
+API = {0: 'path', 1: 'FILE*'}
+OUTSIDE = ('outside: INT96 (writer returns NOT_IMPLEMENTED), GZIP/ZSTD (library contract stubs), nested schemas, dictionary pages, '
+           'carquet_reader_open_file / carquet_get_file_info / carquet_validate_file (declared in carquet.h but not defined in the library), '
+           'wo.write_statistics is set as stated but the public writer ignores it')
+# column specs (c18_tables.h): UPPER = REQUIRED, lower = OPTIONAL; B BOOLEAN, I INT32, L INT64, F FLOAT, D DOUBLE, S BYTE_ARRAY, X FIXED_LEN_BYTE_ARRAY
+ONE = 'B,b,I,i,L,l,F,f,D,d,S,s,X,x'                 # every writable physical type, REQUIRED and OPTIONAL, one column
+TWO = 'Il,Sd,bX,sF,Di,Lb,xS,fI'                     # two columns of different types
+THREE = 'Ils,SdB,xFi,bLD,sIX'                       # three columns
+TAIL = 'I,i,L,l,F,D,S,s,X,x,IL,SX,lsD'              # types whose PLAIN bytes can spell  <footer length> "PAR1"
+
+
+def layout_txt(rows, nrg, batch):
+    return '%d rows in %d row group(s), %s' % (rows, nrg, ('%d rows per write_batch call = per page' % batch) if batch else 'one page per column chunk')
+
+
+def common_defs(specs, rows, nrg, batch, flavour, codec, api, stats=1):
+    return ['-DVC_SPECS="%s"' % specs, '-DVC_ROWS=%d' % rows, '-DVC_NRG=%d' % nrg, '-DVC_BATCH=%d' % batch, '-DVC_FLAVOUR=%d' % flavour,
+            '-DCODEC=' + CODECS[codec], '-DVC_FILEAPI=%d' % api, '-DVC_STATS=%d' % stats]
+
+
+def tag(fam, rows, nrg, batch, flavour, codec, api):
+    return '%s/r%d-g%d-b%d-f%d/%s/%s' % (fam, rows, nrg, batch, flavour, codec, 'file' if api else 'path')
+
+
+def cut(fam, specs, rows, nrg, batch, flavour, codec, om, api=0, stats=1, timeout=900):
+    n = specs.count(',') + 1
+    return E2('cut/%s/%s' % (OPEN[om], tag(fam, rows, nrg, batch, flavour, codec, api)), H,
+              defines=['-DVC_MODE=1', '-DVC_OPEN=%d' % om] + common_defs(specs, rows, nrg, batch, flavour, codec, api, stats),
+              all_lib=True, timeout=timeout, stubs=STUBS, expect_paths_min=40 * n, max_paths=400000, exclude='F-FOOTER-REQUIRED',
+              bounds='concrete tables {%s} (%s content, null pattern %d), %s, %s, writer created by %s, write_statistics=%d; file written by the real writer, then '
+                     'EVERY cut length 0..len-1 (one path each), opened via %s; %s' % (specs, 'tail-like' if flavour >= 8 else 'ordinary', flavour & 7, layout_txt(rows, nrg, batch), codec, API[api], stats, OPEN[om], OUTSIDE))
+
+
+def sink(fam, specs, rows, nrg, batch, flavour, codec, api=0, timeout=900):
+    n = specs.count(',') + 1
+    return E2('sink-fault/%s' % tag(fam, rows, nrg, batch, flavour, codec, api), H,
+              defines=['-DVC_MODE=2'] + common_defs(specs, rows, nrg, batch, flavour, codec, api), all_lib=True, timeout=timeout, stubs=STUBS, expect_paths_min=8 * n,
+              bounds='write history of concrete tables {%s}, %s, %s, writer created by %s; ONE sink fault at every fwrite (short count, or absorbed and reported by the next '
+                     'fflush/fclose), fflush and fclose of the history; more than one fault per history is outside; %s' % (specs, layout_txt(rows, nrg, batch), codec, API[api], OUTSIDE))
+
+
+def abort(fam, specs, rows, nrg, batch, flavour, codec, api=0, fault=False, badop=False, timeout=900):
+    n = specs.count(',') + 1
+    nm = 'abort%s%s/%s' % ('+sinkfault' if fault else '', '+badcall' if badop else '', tag(fam, rows, nrg, batch, flavour, codec, api))
+    return E2(nm, H, defines=['-DVC_MODE=3'] + (['-DVC_ABORT_FAULT'] if fault else []) + (['-DVC_ABORT_BADOP'] if badop else []) + common_defs(specs, rows, nrg, batch, flavour, codec, api),
+              all_lib=True, timeout=timeout, stubs=STUBS, expect_paths_min=3 * n,
+              bounds='carquet_writer_abort after EVERY prefix of the call history (write_batch per column and page, new_row_group) of concrete tables {%s}, %s, %s, writer created by %s%s%s; '
+                     'leak check, and no file left behind for the path writer; %s' % (
+                         specs, layout_txt(rows, nrg, batch), codec, API[api], '; one sink fault at every fwrite/fflush/fclose of the prefix and of abort itself' if fault else '',
+                         '; two rejected write_batch calls (column index out of range) before the abort' if badop else '', OUTSIDE))
+
+
+def tailsym(specs, rows, nrg, batch, trow, codec, om, api=0, timeout=1500):
+    return E2('cut-tail-anyL/%s/%s/r%d-g%d-b%d-t%d/%s/%s' % (OPEN[om], specs, rows, nrg, batch, trow, codec, 'file' if api else 'path'), H,
+              defines=['-DVC_MODE=4', '-DVC_OPEN=%d' % om, '-DVC_TROW=%d' % trow, '-DREF_MAX_VALUES=32', '-DREF_MAX_PAGES=8'] + common_defs(specs, rows, nrg, batch, 0, codec, api),
+              all_lib=True, timeout=timeout, stubs=STUBS, fork_max=8192, expect_paths_min=25, max_paths=400000, exclude='F-FOOTER-REQUIRED',
+              ref=['ref_parquet_read.c', 'ref_parquet_meta.c', 'ref_thrift.c', 'ref_rle.c', 'ref_snappy.c', 'ref_lz4.c', 'ref_hash.c', 'ref_plain_bss.c'],
+              bounds='table {%s}, %s, %s: BYTE_ARRAY value of row %d is <L> "PAR1" with EVERY 32-bit L (symbolic); the prefix that ends right behind it, opened via %s, is rejected '
+                     'unless the independent reference reader accepts it as a complete Parquet file; %s' % (specs, layout_txt(rows, nrg, batch), codec, trow, OPEN[om], OUTSIDE))
+
+
+def legacy(codecs):
+    """the obligations of the first version of this check (2 columns, 4 rows, 2 row groups, one page per chunk)"""
+    o = []
+    for specs, fl, fam in (('Il', 0, 'base-Il'), ('Sd', 0, 'base-Sd'), ('IL', 8, 'base-tail')):
+        for cn in codecs:
+            if fl and cn != 'unc': continue
+            for om in (0, 1, 2):
+                o.append(cut(fam, specs, 4, 2, 0, fl, cn, om))
+    for specs, fam in (('Il', 'base-Il'), ('Sd', 'base-Sd')):
+        for cn in codecs:
+            o.append(sink(fam, specs, 4, 2, 0, 0, cn))
+            o.append(abort(fam, specs, 4, 2, 0, 0, cn))
+    return o
 
 
 def obligations(tier):
     q = tier == 'quick'
-    o = []
-    codecs = [('unc', 'CARQUET_COMPRESSION_UNCOMPRESSED')] if q else [('unc', 'CARQUET_COMPRESSION_UNCOMPRESSED'), ('snappy', 'CARQUET_COMPRESSION_SNAPPY'), ('lz4', 'CARQUET_COMPRESSION_LZ4')]
-    for shape in (0, 1, 2):
-        for cn, cd in codecs:
-            if shape == 2 and cn != 'unc': continue
-            for om, on in ((0, 'buffer'), (1, 'stdio'), (2, 'mmap')):
-                o.append(E2('cut/%s/shape%d/%s' % (on, shape, cn), H, defines=['-DMODE=1', '-DSHAPE=%d' % shape, '-DCODEC=' + cd, '-DOPENMODE=%d' % om, '-DROWS=4'],
-                            all_lib=True, timeout=600, fork_max=1024, stubs=STUBS,
-                            bounds='file written by the real writer (2 columns, 4 rows, 2 row groups, %s); EVERY cut length 0..len-1 (symbolic), open via %s' % (cn, on)))
-    for shape in (0, 1):
-        for cn, cd in codecs:
-            o.append(E2('sink-fault/shape%d/%s' % (shape, cn), H, defines=['-DMODE=2', '-DSHAPE=%d' % shape, '-DCODEC=' + cd, '-DROWS=4'], all_lib=True, timeout=600, stubs=STUBS,
-                        bounds='write history of a 2-column 4-row 2-row-group table (%s); ONE sink fault at every fwrite (short count, or absorbed and reported by the next fflush/fclose), fflush and fclose of the history' % cn))
-            o.append(E2('abort/shape%d/%s' % (shape, cn), H, defines=['-DMODE=3', '-DSHAPE=%d' % shape, '-DCODEC=' + cd, '-DROWS=4'], all_lib=True, timeout=600, stubs=STUBS,
-                        bounds='carquet_writer_abort after each of 4 prefixes of the call history; leak check + file removed'))
+    o = legacy(['unc', 'snappy', 'lz4'])
+    if q:
+        # a slice of the deep matrix: every type, several pages and row groups, both writer constructors
+        for om in (0, 1, 2):
+            o.append(cut('one', ONE, 6, 2, 2, 0, 'unc', om))
+            o.append(cut('tail', TAIL, 6, 2, 2, 8, 'unc', om, api=1))
+        o.append(sink('one', ONE, 6, 3, 2, 0, 'snappy'))
+        o.append(sink('two', TWO, 6, 3, 2, 0, 'unc', api=1))
+        o.append(abort('one', ONE, 6, 3, 2, 0, 'unc'))
+        o.append(abort('two', TWO, 6, 3, 2, 0, 'lz4', api=1, fault=True))
+        return o
+    # ---------------------------------------------------------------- thorough
+    LAYOUTS = [(6, 1, 2), (6, 2, 2), (9, 3, 2), (7, 2, 0), (8, 1, 3), (12, 3, 1)]          # (rows, row groups, rows per page; 0 = one page per chunk)
+    for om in (0, 1, 2):
+        for cn in ('unc', 'snappy', 'lz4'):
+            for li, (rows, nrg, batch) in enumerate(LAYOUTS):
+                api = (li + om) % 2
+                o.append(cut('one', ONE, rows, nrg, batch, 0, cn, om, api=api))
+                o.append(cut('one', ONE, rows, nrg, batch, 1, cn, om, api=1 - api))       # other null pattern (all-NULL pages), other constructor
+                o.append(cut('two', TWO, rows, nrg, batch, 0, cn, om, api=api))
+                o.append(cut('tail', TAIL, rows, nrg, batch, 8, cn, om, api=api))
+                o.append(cut('tail', TAIL, rows, nrg, batch, 9, cn, om, api=1 - api))
+            for rows, nrg, batch in LAYOUTS[:3]:
+                o.append(cut('three', THREE, rows, nrg, batch, 0, cn, om, api=om % 2))
+            o.append(cut('allnull', 'b,i,l,f,d,s,x,is', 6, 2, 2, 3, cn, om))
+            o.append(cut('nonulls', 'b,i,s,x,ls', 6, 2, 2, 2, cn, om, stats=0))
+            o.append(cut('zero-rows', 'I,s,Il', 0, 1, 0, 0, cn, om))
+    for cn in ('unc', 'snappy', 'lz4'):
+        for api in (0, 1):
+            for rows, nrg, batch in LAYOUTS:
+                o.append(sink('one', ONE, rows, nrg, batch, 0, cn, api))
+                o.append(sink('two', TWO, rows, nrg, batch, 1, cn, api))
+                o.append(abort('one', ONE, rows, nrg, batch, 0, cn, api))
+                o.append(abort('two', TWO, rows, nrg, batch, 1, cn, api, fault=True))
+                o.append(abort('one', ONE, rows, nrg, batch, 1, cn, api, badop=True))
+            o.append(sink('three', THREE, 9, 3, 2, 0, cn, api))
+            o.append(abort('three', THREE, 9, 3, 2, 0, cn, api, fault=True, badop=True))
+            o.append(sink('zero-rows', 'I,s,Il', 0, 1, 0, 0, cn, api))
+            o.append(abort('zero-rows', 'I,s,Il', 0, 1, 0, 0, cn, api, fault=True))
+    for om in (0, 1, 2):
+        for specs, rows, nrg, batch, trow in (('S', 4, 1, 0, 3), ('S', 8, 2, 2, 7), ('SI', 9, 3, 3, 8), ('Sl', 6, 2, 1, 5), ('Sdx', 6, 2, 2, 4), ('Sb', 12, 3, 2, 11)):
+            o.append(tailsym(specs, rows, nrg, batch, trow, 'unc', om, api=om % 2))
     return o
